@@ -187,8 +187,6 @@ func (e *Exec) querySweep(r *Replica, m *Model, height int64, full bool, atH int
 	}
 	// C13: counters and listings
 	owners := sortedKeys(m.AolOwners)
-	styles := []PageStyle{{Limit: 0}, {Limit: 1}, {Limit: 2}, {Limit: 3, Reverse: true}, {Limit: 7, CountTotal: true}, {Limit: 100, ByOffset: true, CountTotal: true},
-		{Limit: 2, ByOffset: true}, {Limit: 1, Reverse: true, CountTotal: true}, {Limit: 3, ByOffset: true, Reverse: true}}
 	for _, o := range owners {
 		if !full && !rng.Chance(0.35) {
 			continue
@@ -199,7 +197,7 @@ func (e *Exec) querySweep(r *Replica, m *Model, height int64, full bool, atH int
 			wantNames = append(wantNames, name)
 		}
 		sort.Strings(wantNames)
-		st := styles[rng.Intn(len(styles))]
+		st := RandomPageStyle(rng)
 		got, total, bad, pages := pageAll(st, func(pr *query.PageRequest) ([]string, *query.PageResponse, *QRes) {
 			q := n.Query(qTopics, &aoltypes.QueryTopicsRequest{OwnerAddress: oa, Pagination: pr}, height)
 			var resp aoltypes.QueryTopicsResponse
@@ -250,7 +248,7 @@ func (e *Exec) querySweep(r *Replica, m *Model, height int64, full bool, atH int
 				wantW = append(wantW, sdk.AccAddress([]byte(w)).String())
 			}
 			sort.Strings(wantW)
-			st2 := styles[rng.Intn(len(styles))]
+			st2 := RandomPageStyle(rng)
 			gotW, totalW, bad, pages := pageAll(st2, func(pr *query.PageRequest) ([]string, *query.PageResponse, *QRes) {
 				q := n.Query(qWriters, &aoltypes.QueryWritersRequest{OwnerAddress: oa, TopicName: name, Pagination: pr}, height)
 				var resp aoltypes.QueryWritersResponse
@@ -381,7 +379,7 @@ func (e *Exec) pnftSweep(r *Replica, m *Model, height int64, full bool, atH int6
 	for _, d := range dens {
 		wantD = append(wantD, denomKeyM(m.Denoms[d]))
 	}
-	st := []PageStyle{{Limit: 0}, {Limit: 2}, {Limit: 3, ByOffset: true}, {Limit: 1, Reverse: true}}[rng.Intn(4)]
+	st := RandomPageStyle(rng)
 	gotD, _, bad, _ := pageAll(st, func(pr *query.PageRequest) ([]string, *query.PageResponse, *QRes) {
 		q := n.Query(qDenoms, &pnfttypes.QueryDenomsRequest{Pagination: pr}, height)
 		var resp pnfttypes.QueryDenomsResponse
@@ -1092,7 +1090,7 @@ func (e *Exec) bootstrap(st *Step) {
 	defer func() { tmp.App = nil }()
 	ex := ExtractState(tmp.DeliverStores())
 	if d := DiffFlat(e.Model.Flatten(), ex.Flat, "", 4); len(d) > 0 {
-		e.viol("C08", "import.state_differs", "", "state after importing the export of height %d differs from the exported chain: %s", h, strings.Join(d, " ; "))
+		e.viol(e.importProp(d[0]), "import.state_differs", "", "state after importing the export of height %d differs from the exported chain: %s", h, strings.Join(d, " ; "))
 		return
 	}
 	for _, p := range ex.Problems {
@@ -1146,6 +1144,18 @@ func (e *Exec) bootstrap(st *Step) {
 			e.R = append(e.R, &Replica{Node: nr, Boot: true, FirstHeight: h + 1, Applied: h})
 		}
 	}
+}
+
+// importProp attributes an export/import difference: to C08 in general, and to the property that names
+// export/import for that kind of entity (records: C01, DID tombstones: C05) when that property is being checked.
+func (e *Exec) importProp(diffLine string) string {
+	switch {
+	case strings.Contains(diffLine, "aol/record/") && e.Prop == "C01":
+		return "C01"
+	case strings.Contains(diffLine, " did/") && strings.Contains(diffLine, "tomb") && e.Prop == "C05":
+		return "C05"
+	}
+	return "C08"
 }
 
 func (e *Exec) importInto(n *Node, appState []byte, vals []abci.ValidatorUpdate, h int64) bool {
